@@ -521,6 +521,17 @@ Proof.
   - apply I_guard; auto.
   - apply I_with_state; auto.
   - apply I_projection; auto.
+  - unfold block_probe. do 5 (apply I_bind; [apply I_peek_nth|intro]). apply I_if; [|apply I_ret].
+    apply I_guard. apply I_bind. apply I_next. intro. apply I_bind. apply I_parse_keyword. intro.
+    unfold create_procedure. apply I_bind. apply I_next. intro.
+    apply I_bind. apply I_consume_token. intro. apply I_bind. apply I_consume_token. intro.
+    apply I_bind. apply I_expect_keyword. intro. apply I_bind. apply I_expect_keyword. intro.
+    apply I_bind; [|intro; apply I_bind; [apply I_expect_keyword|intro; apply I_ret]].
+    unfold parse_statement_block. apply I_statements_loop. unfold stmt_core.
+    apply I_guard. apply I_bind. apply I_next. intro t'. apply I_if; [|apply I_expected].
+    unfold commit_chain. apply I_bind. apply I_one_of. intro. apply I_bind. apply I_parse_keyword.
+    intros []; [|apply I_ret]. apply I_bind. apply I_parse_keyword. intro. apply I_bind.
+    apply I_expect_keyword. intro. apply I_ret.
 Qed.
 
 Lemma I_denote (okm : forall A, bool -> M A -> Prop) (oke : token -> Prop) rr :
